@@ -32,6 +32,7 @@ type c14Params struct {
 	Files  int  `json:"files"`
 	MaxOut int  `json:"max_out"`
 	Dirs   bool `json:"dirs"`
+	Case   bool `json:"case"` // file names that differ only by letter case
 }
 
 func stringsOver(alpha string, maxLen int) []string {
@@ -270,6 +271,8 @@ func workC14Graphs(w *run.W) {
 	var nodes []string
 	if p.Dirs {
 		nodes = []string{"root.jst", "a.jst", "sub/a.jst", "sub/b.jst"}
+	} else if p.Case {
+		nodes = []string{"root.jst", "types.jst", "Types.jst", "TYPES.JST"}
 	} else {
 		for i := 0; i < p.Files; i++ {
 			nodes = append(nodes, fmt.Sprintf("f%d.jst", i))
@@ -315,7 +318,7 @@ func workC14Graphs(w *run.W) {
 		total *= len(ll)
 	}
 	for c := 0; c < total; c++ {
-		if !w.Mine(int64(c)) || !w.Begin(fmt.Sprintf("graph/%v/%d/%d", p.Dirs, n, c)) {
+		if !w.Mine(int64(c)) || !w.Begin(fmt.Sprintf("graph/%v%v/%d/%d", p.Dirs, p.Case, n, c)) {
 			continue
 		}
 		graph := make([][]tgt, n)
@@ -460,6 +463,8 @@ func runC14(c *chk.Ctx) {
 	r2 := c.Pool.Run("c14graphs", pg)
 	c.Merge(r2, "graphs")
 	r4 := c.Pool.Run("c14graphs", c14Params{Dirs: true, MaxOut: chk.Pick(c, 1, 2)})
+	r5 := c.Pool.Run("c14graphs", c14Params{Case: true, MaxOut: chk.Pick(c, 1, 2)})
+	c.Merge(r5, "graphs")
 	c.Merge(r4, "graphs")
 	if !c.Quick() {
 		r3 := c.Pool.Run("c14graphs", c14Params{Files: 5, MaxOut: 1})
